@@ -45,3 +45,33 @@ class WTable:
 
     def get(self, key):
         return self.vals[self.keys[key]]
+
+
+def decode_machine(d, nT):
+    """machine dumped by the driver (states/labels as repr strings) -> harness encoding with int states"""
+    smap = {}
+
+    def st(x):
+        if x not in smap:
+            smap[x] = len(smap)
+        return smap[x]
+
+    lmap = {repr(chr(ord("a") + a)): a for a in range(26)}
+
+    def w(x):
+        v = dec_val(x)
+        if isinstance(v, float):
+            v = Fraction(v).limit_denominator(10 ** 9)
+        if isinstance(v, tuple):
+            raise ValueError(f"weight {x}")
+        return F.fs(v)
+
+    m = {"nT": nT, "init": [[st(q), w(x)] for q, x in d["init"]], "final": [[st(q), w(x)] for q, x in d["final"]], "arcs": []}
+    for i, a, j, x in d["arcs"]:
+        if a is not None and a not in lmap:
+            raise ValueError(f"label {a}")
+        m["arcs"].append([st(i), None if a is None else lmap[a], st(j), w(x)])
+    for q in d.get("states", []):
+        st(q)
+    m["nstates"] = len(smap)
+    return m
